@@ -745,9 +745,165 @@ fn cases(tier: Tier) -> Vec<Case> {
     v
 }
 
+/// A stream over a large buffer whose calls move at most the scripted number of bytes (after the
+/// script: everything asked for).
+struct BigStream {
+    data: Vec<u8>,
+    pos: usize,
+    script: Vec<usize>,
+    calls: usize,
+    cap: usize,
+}
+
+impl BigStream {
+    fn quota(&mut self, want: usize) -> usize {
+        let q = self.script.get(self.calls).copied().unwrap_or(self.cap);
+        self.calls += 1;
+        q.min(want)
+    }
+}
+
+impl ReadVolatile for BigStream {
+    fn read_volatile<B: BitmapSlice>(&mut self, buf: &mut VolatileSlice<B>) -> Result<usize, VolatileMemoryError> {
+        let n = self.quota(buf.len()).min(self.data.len() - self.pos);
+        if n > 0 {
+            buf.write_slice(&self.data[self.pos..self.pos + n], 0)?;
+        }
+        self.pos += n;
+        Ok(n)
+    }
+}
+
+impl WriteVolatile for BigStream {
+    fn write_volatile<B: BitmapSlice>(&mut self, buf: &VolatileSlice<B>) -> Result<usize, VolatileMemoryError> {
+        let n = self.quota(buf.len());
+        let mut tmp = vec![0u8; n];
+        if n > 0 {
+            buf.read_slice(&mut tmp, 0)?;
+        }
+        self.data.extend_from_slice(&tmp);
+        Ok(n)
+    }
+}
+
+/// Transfers of several MiB in one call, with short calls placed around 2^20 and 2^21 bytes and
+/// with a stream that never moves more than 700001 bytes at a time: at slice, region and
+/// guest-memory (two regions) level, all four forms. Nothing lost, nothing duplicated, the exact
+/// forms complete.
+fn large_transfers(ctx: &Ctx, thorough: bool) -> u64 {
+    const M: usize = 1 << 20;
+    let total = 3 * M + 4096 + 5;
+    let region = GuestRegionMmap::<()>::from_range(GuestAddress(0x10_0000), total, None).unwrap();
+    let memory = GuestMemoryMmap::<()>::from_ranges(&[(GuestAddress(0x10_0000), 2 * M + 3), (GuestAddress(0x10_0000 + 2 * M as u64 + 3), total - 2 * M - 3)]).unwrap();
+    let pattern = |salt: u8, n: usize| -> Vec<u8> { (0..n).map(|i| ((i as u32).wrapping_mul(2654435761) >> 24) as u8 ^ salt).collect() };
+    let mut scripts: Vec<(Vec<usize>, usize)> = vec![(vec![], usize::MAX), (vec![1], usize::MAX), (vec![M - 1], usize::MAX), (vec![M], usize::MAX), (vec![M + 1], usize::MAX), (vec![2 * M + 5], usize::MAX), (vec![], 700_001)];
+    if thorough {
+        scripts.extend([(vec![M, 1], usize::MAX), (vec![M + 1, M - 1], usize::MAX), (vec![], M), (vec![], M + 1), (vec![5, 5, 5], 1 << 19)]);
+    }
+    let mut t = 0u64;
+    for level in 0..3usize {
+        for form in [Form::ReadUpTo, Form::ReadExact, Form::WriteUpTo, Form::WriteAll] {
+            for (off, count) in [(0usize, total), (3, 2 * M + 7), (M - 1, M + 2)] {
+                for (script, cap) in &scripts {
+                    t += 1;
+                    ctx.case(true);
+                    // fill guest memory with a pattern
+                    let fill = pattern(0x11, total);
+                    let set = |data: &[u8]| match level {
+                        2 => {
+                            let mut o = 0;
+                            for r in memory.iter() {
+                                let l = r.len() as usize;
+                                unsafe { std::ptr::copy_nonoverlapping(data[o..].as_ptr(), r.as_ptr(), l) };
+                                o += l;
+                            }
+                        }
+                        _ => unsafe { std::ptr::copy_nonoverlapping(data.as_ptr(), region.as_ptr(), total) },
+                    };
+                    let get = || -> Vec<u8> {
+                        match level {
+                            2 => {
+                                let mut v = Vec::with_capacity(total);
+                                for r in memory.iter() {
+                                    v.extend_from_slice(unsafe { std::slice::from_raw_parts(r.as_ptr(), r.len() as usize) });
+                                }
+                                v
+                            }
+                            _ => unsafe { std::slice::from_raw_parts(region.as_ptr(), total) }.to_vec(),
+                        }
+                    };
+                    set(&fill);
+                    let reading = matches!(form, Form::ReadUpTo | Form::ReadExact);
+                    let mut s = BigStream { data: if reading { pattern(0xa7, count + 64) } else { Vec::new() }, pos: 0, script: script.clone(), calls: 0, cap: *cap };
+                    let res: Res = match level {
+                        0 => {
+                            let vs = region.as_volatile_slice().unwrap();
+                            slice_call(&vs, form, off, count, &mut s)
+                        }
+                        1 => {
+                            let a = MemoryRegionAddress(off as u64);
+                            match form {
+                                Form::ReadUpTo => region.read_volatile_from(a, &mut s, count).map(Some).map_err(|e| classify_g(&e)),
+                                Form::ReadExact => region.read_exact_volatile_from(a, &mut s, count).map(|_| None).map_err(|e| classify_g(&e)),
+                                Form::WriteUpTo => region.write_volatile_to(a, &mut s, count).map(Some).map_err(|e| classify_g(&e)),
+                                _ => region.write_all_volatile_to(a, &mut s, count).map(|_| None).map_err(|e| classify_g(&e)),
+                            }
+                        }
+                        _ => {
+                            let a = GuestAddress(0x10_0000 + off as u64);
+                            match form {
+                                Form::ReadUpTo => memory.read_volatile_from(a, &mut s, count).map(Some).map_err(|e| classify_g(&e)),
+                                Form::ReadExact => memory.read_exact_volatile_from(a, &mut s, count).map(|_| None).map_err(|e| classify_g(&e)),
+                                Form::WriteUpTo => memory.write_volatile_to(a, &mut s, count).map(Some).map_err(|e| classify_g(&e)),
+                                _ => memory.write_all_volatile_to(a, &mut s, count).map(|_| None).map_err(|e| classify_g(&e)),
+                            }
+                        }
+                    };
+                    let after = get();
+                    let mut bad: Option<(&str, String)> = None;
+                    let n = match &res {
+                        Ok(Some(n)) => Some(*n),
+                        Ok(None) => Some(count),
+                        Err(e) => {
+                            bad = Some(("result", format!("returned {:?} although the stream can serve the whole transfer", e)));
+                            None
+                        }
+                    };
+                    if let Some(n) = n {
+                        if n == 0 || n > count || (matches!(form, Form::ReadExact | Form::WriteAll) && n != count) {
+                            bad = Some(("count", format!("moved {} of {} bytes", n, count)));
+                        } else if reading {
+                            let mut want = fill.clone();
+                            want[off..off + n].copy_from_slice(&s.data[..n]);
+                            if after != want {
+                                let i = (0..total).find(|i| after[*i] != want[*i]).unwrap();
+                                bad = Some(("memory", format!("after {:?} of {} bytes at {:#x}: guest byte {:#x} is {:#04x}, the stream's byte {} is {:#04x}", res, count, off, i, after[i], i.wrapping_sub(off), want[i])));
+                            } else if s.pos != n {
+                                bad = Some(("consumed", format!("{} bytes taken from the stream, {} stored", s.pos, n)));
+                            }
+                        } else if after != fill {
+                            bad = Some(("memory", "a transfer out of guest memory changed it".into()));
+                        } else if s.data[..] != fill[off..off + n] {
+                            let i = (0..s.data.len().min(n)).find(|i| s.data[*i] != fill[off + *i]);
+                            bad = Some(("sink", format!("the sink holds {} bytes, {} reported; first difference at {:?}", s.data.len(), n, i)));
+                        }
+                    }
+                    if let Some((k, d)) = bad {
+                        let lv = ["slice", "region", "guest memory (two regions)"][level];
+                        let key = format!("C14/large-transfer/{}/{}/{}", lv, form.name(), k);
+                        let rp = if ctx.has_failed(&key) { Value::Null } else { json!({"level": lv, "form": form.name(), "offset": off, "count": count, "short_calls": script, "per_call_cap": if *cap == usize::MAX { json!(null) } else { json!(cap) }}) };
+                        ctx.fail(&key, &format!("{} bytes at {:#x}, short calls {:?}, per-call cap {:?}: {}", count, off, script, if *cap == usize::MAX { None } else { Some(cap) }, d), rp);
+                    }
+                }
+            }
+        }
+    }
+    t
+}
+
 pub fn run(tier: Tier, replay: Option<String>) -> i32 {
     let ctx = crate::new_ctx("C14", tier, "fault_enumeration", &replay);
-    ctx.set_rule("choice-tree DFS: every call the transfer makes to the underlying stream is a choice among full / short by k / zero / EINTR (<=3 in a row) / hard error of four kinds (other, WouldBlock, BrokenPipe, TimedOut); scripts of up to max_calls scripted calls, at most `bound` non-default answers per script (all bounds 0..=B enumerated completely); streams: a scripted ReadVolatile/WriteVolatile and the real File adapter over interposed read(2)/write(2); targets: slice, region, guest memory with two adjacent regions, a hole and a third region behind it (ranges may end in the hole or behind it); a case is non-trivial when its script contains at least one non-default answer; distinct = distinct (case, script) pairs, by construction of the DFS; plus, for every case, runs of 4, 33, 64 and 1000 EINTR answers in a row (alone and after a one-byte transfer) followed by default answers");
+    ctx.set_rule("choice-tree DFS: every call the transfer makes to the underlying stream is a choice among full / short by k / zero / EINTR (<=3 in a row) / hard error of four kinds (other, WouldBlock, BrokenPipe, TimedOut); scripts of up to max_calls scripted calls, at most `bound` non-default answers per script (all bounds 0..=B enumerated completely); streams: a scripted ReadVolatile/WriteVolatile and the real File adapter over interposed read(2)/write(2); targets: slice, region, guest memory with two adjacent regions, a hole and a third region behind it (ranges may end in the hole or behind it); a case is non-trivial when its script contains at least one non-default answer; distinct = distinct (case, script) pairs, by construction of the DFS; plus, for every case, runs of 4, 33, 64 and 1000 EINTR answers in a row (alone and after a one-byte transfer) followed by default answers; plus transfers of 1 MiB+2 .. 3 MiB+4101 bytes in one call at slice, region and two-region guest-memory level, all four forms, with short calls of 1, 2^20-1, 2^20, 2^20+1 and 2^21+5 bytes and with streams capped at 700001 bytes per call");
     ctx.assume("the scripted stream and the interposed syscalls deliver exactly what the script says");
     if let Err(e) = crate::interpose::selftest() {
         ctx.machinery(&format!("interposition self-test failed: {}", e));
@@ -858,6 +1014,8 @@ pub fn run(tier: Tier, replay: Option<String>) -> i32 {
         }
     }
     ctx.extra("long_eintr_run_scripts", json!(long_runs));
+    let lt = large_transfers(&ctx, tier.thorough());
+    ctx.extra("large_transfer_scripts", json!(lt));
     ctx.set_exhaustive(true);
     ctx.extra("cases", json!(all.len()));
     ctx.extra("scripts_executed_including_re-exploration_per_bound", json!(per_bound));
